@@ -24,6 +24,26 @@ type world struct {
 	ref   *ref.MBC
 	known [][]bool
 	hist  []string
+	// another cartridge alive in the same process: it has its own RAM (or none), and whatever
+	// it stores stays its own
+	other  *rig.Machine
+	otherN int
+}
+
+// otherCart loads a second cartridge (no RAM declared, or a small RAM) and enables its RAM.
+func otherCart(n int) *rig.Machine {
+	cart := []uint8{0x01, 0x11, 0x19, 0x00, 0x03, 0x13, 0x1b}[n%7]
+	ramCode := uint8(0)
+	if cart == 0x03 || cart == 0x13 || cart == 0x1b {
+		ramCode = 2
+	}
+	romCode := uint8(1)
+	if cart == 0x00 {
+		romCode = 0
+	}
+	m := rig.MustNew(append([]byte{}, romImage(cart, romCode, ramCode)...), rig.Opts{})
+	m.Mem.Write(0x0000, 0x0a)
+	return m
 }
 
 func kindName(k ref.MBCKind) string {
@@ -40,6 +60,17 @@ func (w *world) log(s string) {
 
 func (w *world) write(addr uint16, v uint8) {
 	w.m.Mem.Write(addr, v)
+	if w.other != nil && addr >= 0xa000 && addr < 0xc000 {
+		w.otherN++
+		switch {
+		case w.otherN%3 == 0:
+			w.other.Mem.Write(addr, ^v) // the other cartridge stores something else at the same address
+			w.c.Count("stores_by_the_other_cartridge", 1)
+		case w.otherN%37 == 5:
+			w.other = otherCart(w.otherN) // ... or is replaced by a freshly loaded one
+			w.c.Count("other_cartridges_loaded", 1)
+		}
+	}
 	b := w.ref.RAMBank()
 	if w.ref.Write(addr, v) {
 		if w.ref.Kind == ref.MBC2 {
@@ -186,6 +217,9 @@ func run(c *rig.Ctx) {
 			return
 		}
 		w := &world{c: c, cf: cf, m: m, ref: ref.NewMBC(cf.cart, img[0x148], cf.ramCode)}
+		if i%2 == 1 {
+			w.other = otherCart(int(i / 2))
+		}
 		for b := 0; b < len(w.ref.RAM); b++ {
 			w.known = append(w.known, make([]bool, len(w.ref.RAM[b])))
 		}
